@@ -111,9 +111,13 @@ def gen_file(rng, big=70000, marker=True, debug=False, defect=False):
                 flt = bytes.fromhex(rng.choice(["010100B6", "010280B600BE", "010280BE00B6"]))
         else:
             flt = UC_FILTER
-        w.text("#>SELECT FILTER=" + " ".join(f"{b:02X}" for b in flt))
-        desc[0xC9] = flt
-        if typ == 1:
+        # a section without platform filter: the hardware id of the tag-type map stays.  Only before the first SELECT of the
+        # file: instructions stay in force for the sections that follow (a later section without SELECT inherits the filter)
+        noselect = rng.random() < 0.3 and not any(l.startswith("#>SELECT FILTER") for l in w.out)
+        if not noselect:
+            w.text("#>SELECT FILTER=" + " ".join(f"{b:02X}" for b in flt))
+            desc[0xC9] = flt
+        if typ == 1 and not noselect:
             desc[0xC4] = flt[-2:] if flt[:2] == bytes([1, 1]) and flt != bytes.fromhex("010100B6") else (0xBE).to_bytes(2, "big")
         if vd != "*":
             desc[0xC8] = bytes.fromhex(vd.replace(" ", ""))[3:3 + vlen]
